@@ -1,6 +1,6 @@
 # name -> (sources relative to /verif/src, extra link flags, kwargs for build_harness)
 HARNESSES = {
-    "worker": (["worker/worker.cpp", "worker/worker_core.cpp", "worker/worker_value.cpp", "worker/worker_xform.cpp"], [], {}),
+    "worker": (["worker/worker.cpp", "worker/worker_core.cpp", "worker/worker_value.cpp", "worker/worker_xform.cpp", "worker/worker_conc.cpp"], [], {}),
     "fuzz_scxml": (["fuzz/fuzz_scxml.cpp"], [], {"link_fuzzer": True}),
     "fuzz_json": (["fuzz/fuzz_json.cpp"], [], {"link_fuzzer": True}),
 }
